@@ -105,6 +105,83 @@ class Parity:
         return (None, None)
 
 
+def _free_names(fn_node):
+    """Names a nested function reads from its enclosing scope."""
+    bound = {a.arg for a in fn_node.args.args + fn_node.args.kwonlyargs
+             + getattr(fn_node.args, "posonlyargs", [])}
+    for a in (fn_node.args.vararg, fn_node.args.kwarg):
+        if a is not None:
+            bound.add(a.arg)
+    loads = []
+    body = fn_node.body if isinstance(fn_node.body, list) else [fn_node.body]
+    for st in body:
+        for x in ast.walk(st):
+            if isinstance(x, ast.Name):
+                if isinstance(x.ctx, ast.Load):
+                    loads.append(x)
+                else:
+                    bound.add(x.id)
+            elif isinstance(x, (ast.FunctionDef, ast.ClassDef)):
+                bound.add(x.name)
+    return [x for x in loads if x.id not in bound]
+
+
+def _node_typed(repo, t, parent_fi, node_classes, depth=0):
+    if depth > 6 or not isinstance(t, tuple) or not t:
+        return False
+    if t[0] == "call":
+        name = fn_name(t[1]) or ""
+        return name in node_classes
+    if t[0] == "n" and parent_fi is not None:
+        for a in parent_fi.node.args.args + parent_fi.node.args.kwonlyargs:
+            if a.arg == t[1] and a.annotation is not None:
+                ann = ast.unparse(a.annotation).strip("'\"").split("[")[0].split("|")[0].strip()
+                q = repo.resolve_in(parent_fi.module, ann)
+                return q in node_classes
+        return False
+    if t[0] == "a":
+        if t[2] in ("dist_node", "value_node", "var_value_node", "at"):
+            return True
+        return False
+    if t[0] in ("phi", "ifexp"):
+        return _node_typed(repo, t[2], parent_fi, node_classes, depth + 1) or \
+            _node_typed(repo, t[3], parent_fi, node_classes, depth + 1)
+    return False
+
+
+def closure_purity(ctx, rule, parent_fi, parent_res, fn_term, label):
+    """A function stored in a Calc/Dist node must compute from its arguments only: a
+    node object captured from the enclosing scope is NOT replaced when the model is
+    deep-copied (functions are copied by reference), so the copy would keep reading the
+    original model."""
+    repo = ctx.repo
+    base_n = repo.cls(f"{NODES}.Node")
+    base_v = repo.cls(f"{NODES}.Var")
+    node_classes = {ci.qualname for ci in [base_n, base_v] + repo.subclasses(base_n)
+                    + repo.subclasses(base_v)}
+    if fn_term[0] == "fn":
+        fi = repo.functions.get(fn_term[1])
+        if fi is None:
+            return
+        fn_node = fi.node
+    else:
+        return
+    env = parent_res.closure()
+    captured = []
+    for nm in _free_names(fn_node):
+        t = env.get(nm.id)
+        if t is None or not isinstance(t, tuple):
+            continue
+        if _node_typed(repo, t, parent_fi, node_classes):
+            captured.append((nm, t))
+    ctx.ob(rule, parent_fi, f"{label} computes from its arguments only (captures no node or "
+                            f"variable object, which a deep copy of the model would not "
+                            f"re-bind)", not captured,
+           detail="; ".join(f"{nm.id} = {short(t, 60)}" for nm, t in captured[:3]),
+           node=captured[0][0] if captured else None,
+           stmt=f"{label} captures " + ", ".join(sorted({nm.id for nm, _ in captured})))
+
+
 def _site(ctx, fi, label, got, want_parity, ident_ref=None):
     ident, p = got
     ok = p == want_parity and (ident_ref is None or ident == ident_ref)
@@ -169,6 +246,9 @@ def check(ctx):
         if okv:
             _site(ctx, fa, "value node of the original variable", pa.apply(vn[0][2][0]), 1,
                   ident)
+        if is_call(dist_node, f"{NODES}.Dist") and dist_node[2]:
+            closure_purity(ctx, "C14.R1", fa, ra, dist_node[2][0],
+                           "the transformed-distribution function")
         _flags_of_dist(ctx, fa, dist_node, ra)
 
     # ------------------------------------------------------------------ (b) class
@@ -195,6 +275,11 @@ def check(ctx):
         ctx.ob("C14.R1", fb, "the original variable becomes a Calc of the new variable",
                okv, detail=short(vn[0]) if vn else "")
         if okv:
+            closure_purity(ctx, "C14.R1", fb, rb, vn[0][2][0],
+                           "the back-transformation function")
+            if is_call(dist_node, f"{NODES}.Dist") and dist_node[2]:
+                closure_purity(ctx, "C14.R1", fb, rb, dist_node[2][0],
+                               "the transformed-distribution function")
             r = pb.closure_ret(vn[0][2][0])
             _site(ctx, fb, "value node of the original variable",
                   pb.apply(r) if r is not None else (None, None), 1, ident)
@@ -238,6 +323,11 @@ def check(ctx):
                      and recv[1][1] == ("a", ("a", n("var_transformed"), "dist_node"),
                                         "distribution")
                      and ri[2] == (n(inner.params()[0]),))
+        closure_purity(ctx, "C14.R1", tb, rtb, ("fn", inner.qualname),
+                       "the back-transformation function")
+        if is_call(dist_node, f"{NODES}.Dist") and dist_node[2]:
+            closure_purity(ctx, "C14.R1", fc, rc, dist_node[2][0],
+                           "the transformed-distribution function")
         ctx.ob("C14.R1", tb, "_transform_back maps the new variable through the INVERSE of "
                              "the transformed distribution's bijector (T = b^-1, so this is "
                              "b): value node parity +1", ok_tb, detail=short(ri or ()),
